@@ -42,11 +42,18 @@ CLAUSE -> THEOREM TABLE (review R2).  Every theorem is about `Validation.run` / 
                                                       validateSrc_rejects_with_valueError, validateSrc_ok_iff_no_check_fires,
                                                       validate_checks_census, validate_label_set_and_array_calls; bridge to the
                                                       hand-written `validateWith`: Validation.validateSrc_eq_validateWith
-  hand-written, NOT lifted (see report): the meaning of the atoms on a descriptor (`evalAtom`), `frame`, `corrFit`,
+  the argument checks of `MetricFrame.__init__`     LIFTED (Generated/FrameChecksSrc.lean, lifter frame_checks.py: eight ordered checks
+                                                      ⟨text, what is compared, exception kind⟩, the five container branches of
+                                                      `_process_features`); frame_checks_census, frameSrc_ok_iff,
+                                                      frameSrc_ok_iff_no_check_fires, frame_rejected_of_lifted_check; the
+                                                      frame_*_rejected theorems are proved through the lifted list; bridge to the
+                                                      hand-written `frame`: FrameChecks.frameSrc_eq_frame
+  hand-written, NOT lifted (see report): the meaning of the atoms on a descriptor (`evalAtom`, `FrameChecks.fires`), `corrFit`,
   `corrTransform`, `enforce_binary_labels=True` of the moments' `load_data`, the exception class of the two sklearn
   checks (`check_consistent_length`, `check_array`: ValueError, pinned in the lifter).
 -/
 import FairModel.Lemmas.Validation
+import FairModel.Lemmas.FrameChecks
 
 namespace Validation
 open Generated.ValidationTables
@@ -585,32 +592,87 @@ example : accepts (.parity false true (5/4) 0 0) = false ∧ accepts (.parity fa
    bad_costs_rejected true true (-1/8) 1 (by norm_num), bad_costs_rejected true true 0 0 (by norm_num),
    constraint_weight_rejected true true (5/4) (by norm_num), constraint_weight_rejected true true (-1/4) (by norm_num)⟩
 
-/-- MetricFrame: length mismatch of y_pred, a sample parameter, a sensitive or a control feature column -/
+/-! ### `MetricFrame.__init__`'s argument checks as lifted (Generated/FrameChecksSrc.lean) -/
+
+/-- which checks the constructor makes, in execution order, what each compares and which exception it raises; and that every
+    container branch of `_process_features` length-checks each column it appends, the DataFrame and dict branches also the
+    column names.  (The texts of the statements are in `Generated.FrameChecksSrc.checks`.) -/
+theorem frame_checks_census :
+    Generated.FrameChecksSrc.checks.map (fun c => (c.pred, c.exc)) =
+      [(.predLen, .valueError), (.paramLen, .valueError), (.sfMissing, .valueError), (.sfLen, .valueError),
+       (.sfName, .valueError), (.cfLen, .valueError), (.cfName, .valueError), (.dupName, .valueError)]
+    ∧ Generated.FrameChecksSrc.processBranches =
+      [("Series", true, false), ("DataFrame", true, true), ("list", true, false), ("dict", true, true), ("else", true, false)] := by
+  decide +kernel
+
+/-- what the driver op `val.frame` answers is what the lifted list answers (op `fchk.frame`) -/
+theorem frame_accepts_eq_frameSrc (a : FrameArgs) : accepts (.frame a) = (FrameChecks.frameSrc a == .ok) := by
+  simp only [accepts, run, FrameChecks.frameSrc_eq_frame]
+
+/-- the lifted list accepts exactly the well-formed constructor calls -/
+theorem frameSrc_ok_iff (a : FrameArgs) : FrameChecks.frameSrc a = .ok ↔ FrameWF a := by
+  rw [FrameChecks.frameSrc_eq_frame]; exact frame_ok_iff a
+
+/-- ... and it accepts iff none of the lifted checks fires -/
+theorem frameSrc_ok_iff_no_check_fires (a : FrameArgs) :
+    FrameChecks.frameSrc a = .ok ↔ ∀ c ∈ Generated.FrameChecksSrc.checks, FrameChecks.fires a c.pred = false :=
+  FrameChecks.runOn_ok_iff _ a
+
+/-- the lifted list only ever raises ValueError -/
+theorem frameSrc_rejects_with_valueError (a : FrameArgs) :
+    FrameChecks.frameSrc a = .ok ∨ FrameChecks.frameSrc a = .valueError :=
+  FrameChecks.runOn_kind _ FrameChecks.checks_all_valueError a
+
+/-- a check that IS in the lifted list and fires on the descriptor makes `MetricFrame(..)` raise -/
+theorem frame_rejected_of_lifted_check (a : FrameArgs) (p : Generated.FrameChecksSrc.Pred)
+    (hp : p ∈ Generated.FrameChecksSrc.checks.map (·.pred)) (hf : FrameChecks.fires a p = true) :
+    accepts (.frame a) = false := by
+  obtain ⟨c, hc, rfl⟩ := List.mem_map.1 hp
+  have := FrameChecks.runOn_rejects _ a c hc hf
+  rw [frame_accepts_eq_frameSrc]
+  simpa [FrameChecks.frameSrc] using this
+
+/-- non-vacuity: the lifted list on a duplicate across sensitive and control features, on a control column one long, and on a
+    well-formed call -/
+example : FrameChecks.frameSrc ⟨3, 3, [3], [⟨some "a", 3⟩], [⟨some "a", 3⟩]⟩ = .valueError ∧
+    FrameChecks.frameSrc ⟨3, 3, [3], [⟨some "a", 3⟩], [⟨some "b", 4⟩]⟩ = .valueError ∧
+    FrameChecks.frameSrc ⟨3, 3, [3], [⟨some "a", 3⟩], [⟨some "b", 3⟩]⟩ = .ok := by decide +kernel
+
+/-- MetricFrame: length mismatch of y_pred, a sample parameter, a sensitive or a control feature column
+    (through the lifted checks predLen / paramLen / sfLen / cfLen: each must be present in the source) -/
 theorem frame_length_mismatch_rejected (a : FrameArgs) :
     (a.nPred ≠ a.nTrue → accepts (.frame a) = false)
     ∧ (∀ p ∈ a.params, p ≠ a.nTrue → accepts (.frame a) = false)
     ∧ (∀ c ∈ a.sf ++ a.cf, c.len ≠ a.nTrue → accepts (.frame a) = false) := by
   refine ⟨?_, ?_, ?_⟩
-  · intro h; rw [Bool.eq_false_iff]; intro ha
-    exact h (accepts_imp_wellFormed _ ha).1
-  · intro p hp h; rw [Bool.eq_false_iff]; intro ha
-    exact h ((accepts_imp_wellFormed _ ha).2.1 p hp)
-  · intro c hc h; rw [Bool.eq_false_iff]; intro ha
-    exact h ((accepts_imp_wellFormed _ ha).2.2.2.1 c hc).2
+  · intro h
+    exact frame_rejected_of_lifted_check a .predLen (by decide) (by simp [FrameChecks.fires, h])
+  · intro p hp h
+    exact frame_rejected_of_lifted_check a .paramLen (by decide) (by simp only [FrameChecks.fires, List.any_eq_true]; exact ⟨p, hp, by simp [h]⟩)
+  · intro c hc h
+    rcases List.mem_append.1 hc with hc | hc
+    · exact frame_rejected_of_lifted_check a .sfLen (by decide) (by simp only [FrameChecks.fires, List.any_eq_true]; exact ⟨c, hc, by simp [h]⟩)
+    · exact frame_rejected_of_lifted_check a .cfLen (by decide) (by simp only [FrameChecks.fires, List.any_eq_true]; exact ⟨c, hc, by simp [h]⟩)
 
-/-- MetricFrame: duplicate or non-string feature names, or no sensitive feature -/
+/-- MetricFrame: duplicate or non-string feature names, or no sensitive feature
+    (through the lifted checks dupName / sfName / cfName / sfMissing) -/
 theorem frame_bad_names_rejected (a : FrameArgs) :
     (¬ ((a.sf ++ a.cf).filterMap (·.name)).Nodup → accepts (.frame a) = false)
     ∧ (∀ c ∈ a.sf ++ a.cf, c.name = none → accepts (.frame a) = false)
     ∧ (a.sf = [] → accepts (.frame a) = false) := by
   refine ⟨?_, ?_, ?_⟩
-  · intro h; rw [Bool.eq_false_iff]; intro ha
-    exact h (accepts_imp_wellFormed _ ha).2.2.2.2
-  · intro c hc h; rw [Bool.eq_false_iff]; intro ha
-    obtain ⟨s, hs⟩ := ((accepts_imp_wellFormed _ ha).2.2.2.1 c hc).1
-    rw [h] at hs; cases hs
-  · intro h; rw [Bool.eq_false_iff]; intro ha
-    exact (accepts_imp_wellFormed _ ha).2.2.1 h
+  · intro h
+    refine frame_rejected_of_lifted_check a .dupName (by decide) ?_
+    simp only [FrameChecks.fires]
+    cases hd : hasDup ((a.sf ++ a.cf).filterMap (·.name))
+    · exact absurd ((hasDup_eq_false_iff _).1 hd) h
+    · rfl
+  · intro c hc h
+    rcases List.mem_append.1 hc with hc | hc
+    · exact frame_rejected_of_lifted_check a .sfName (by decide) (by simp only [FrameChecks.fires, List.any_eq_true]; exact ⟨c, hc, by simp [h]⟩)
+    · exact frame_rejected_of_lifted_check a .cfName (by decide) (by simp only [FrameChecks.fires, List.any_eq_true]; exact ⟨c, hc, by simp [h]⟩)
+  · intro h
+    exact frame_rejected_of_lifted_check a .sfMissing (by decide) (by simp [FrameChecks.fires, h])
 
 /-- non-vacuity of `frame_length_mismatch_rejected` / `frame_bad_names_rejected`: a sample parameter one short; a control column one
     long; a non-string control name; a duplicate across sensitive and control features -/
